@@ -21,13 +21,13 @@ func TestMain(m *testing.M) {
 func propTruth(t *rapid.T) {
 	cfg := hist.GenConfig(t, []uint{0, 100, 1000}, false)
 	m := hist.Run(t, cfg, hist.Options{
-		Weights: hist.Weights(map[string]int{"checkstate": 3, "checkstate_adv": 6, "restore": 6, "restart": 2, "rotate": 1, "swap_adv": 1, "melt": 5, "meltquote": 4, "resolve": 2, "mint": 1}),
+		Weights: hist.Weights(map[string]int{"checkstate": 3, "checkstate_adv": 6, "restore": 6, "locked_spend": 4, "restart": 2, "rotate": 1, "swap_adv": 1, "melt": 5, "meltquote": 4, "resolve": 2, "mint": 1}),
 		Owns:    []string{"C15"},
 		PropID:  "C15",
 	})
 	if m.Count["checkstate_mixed_states"] > 0 || m.Count["restore_mixed"] > 0 {
 		rec.NonTrivial(strings.Join(m.Trace, "|"))
-		for _, k := range []string{"checkstate_mixed_states", "restore_mixed", "restart", "rotation", "melt_PENDING", "melt_UNPAID", "melt_PAID"} {
+		for _, k := range []string{"checkstate_mixed_states", "restore_mixed", "restart", "rotation", "melt_PENDING", "melt_UNPAID", "melt_PAID", "spend_with_witness"} {
 			if m.Count[k] > 0 {
 				rec.Class("history_with_" + k)
 			}
